@@ -573,6 +573,97 @@ def st_deferred_mutation():
         st.tuples(st.just('path'), st.sampled_from(['PREFIXONLY', 'PREFIXONLY', 'SUFFIX/x', '/nope'])).map(list)), min_size=1, max_size=3))
 
 
+# ------------------------------------------------------------------------------------- coverage-guided part (atheris)
+def fuzz_one(s, data: bytes):
+    """Judge one fuzzer input: byte 0 selects the endpoint (even: provider, odd: consumer), byte 1 bit 0 asks for the
+    Content-Length header to be corrected to the real body length (so that byte mutations of the body reach the SOAP
+    layer), the rest is the byte stream of the connection.  -> (findings, reached the message reader)"""
+    world = s['world']
+    target = 'provider' if data[0] % 2 == 0 else 'consumer'
+    raw = data[2:]
+    if data[1] & 1:
+        head, sep, body = raw.partition(b'\r\n\r\n')
+        if sep:
+            head = re.sub(rb'(?im)^content-length:[^\r\n]*', b'Content-Length: %d' % len(body), head)
+            raw = head + sep + body
+    before = (world.mdib.mdib_version, table_scan(world))
+    del s['handed'][:]
+    response, exc, reader = M.handle_raw(s['mem'][target], raw)
+    reached = bool(s['handed'])
+    try:
+        out, status, root = judge_response(response, exc, reader, 'fuzz', require_response=False)
+    except Exception as ex:  # noqa: BLE001  (e.g. an undecodable response body)
+        if R.exc_in_library(ex) or isinstance(ex, (ValueError, OSError)):
+            return [(f'{P}/fuzz/response-unjudgeable/{type(ex).__name__}', str(ex)[:200])], reached
+        raise
+    for tok in (s['token'], 'VFEXPANDED'):
+        if tok.encode() in response:
+            out.append((f'{P}/fuzz/entity-content-in-response', f'{tok[:10]}... appears in the response'))
+    accepted = status is not None and status < 300 and (root is None or root.find(f'{{{S12}}}Body/{{{S12}}}Fault') is None)  # noqa: PLR2004
+    if not accepted and not out and (world.mdib.mdib_version, table_scan(world)) != before:
+        out.append((f'{P}/fuzz/rejected-request-changed-state', f'status {status}'))
+    return out, reached
+
+
+def fuzz_seed_inputs(s) -> list:
+    out = []
+    for m in s['corpus']:
+        raw = http_request('POST', m['path'], [('Host', 'h'), ('Content-Type', 'application/soap+xml; charset=utf-8'),
+                                               ('Content-Length', str(len(m['body'])))], m['body'])
+        out.append((b'\x00' if m['to'] == 'provider' else b'\x01') + b'\x01' + raw)
+    return out
+
+
+def start_fuzz(ctx, runs, n_procs):
+    """Start atheris campaigns in child processes (libFuzzer owns the process); findings come back as files."""
+    import subprocess
+    import sys
+    out_dir = tempfile.mkdtemp(prefix='vf_c13_fuzz_')
+    procs = []
+    for i in range(n_procs):
+        cmd = [sys.executable, '-m', 'vf.fuzz_c13', out_dir, str(runs), str((ctx.seed * 1000 + i) % 2**31 or 1), str(i)]
+        procs.append(subprocess.Popen(cmd, stdout=subprocess.DEVNULL, stderr=subprocess.PIPE))  # noqa: S603
+    return out_dir, procs, runs
+
+
+def collect_fuzz(ctx, handle):
+    import glob
+    import json
+    import shutil
+    import subprocess
+    out_dir, procs, runs = handle
+    try:
+        for i, pr in enumerate(procs):
+            try:
+                _, err = pr.communicate(timeout=max(ctx.budget_s - ctx.elapsed(), 30))
+            except subprocess.TimeoutExpired:
+                pr.kill()
+                pr.communicate()
+                ctx.count('fuzz/campaign-stopped-by-budget')
+                continue
+            if pr.returncode != 0:
+                tail = (err or b'').decode(errors='replace')[-600:]
+                if 'No module named' in tail and 'atheris' in tail:
+                    ctx.note('atheris is not installed: the coverage-guided part did not run')
+                    return
+                raise R.HarnessError(f'fuzz campaign {i} ended with status {pr.returncode}: {tail}')
+        execs = reached = 0
+        for f in glob.glob(os.path.join(out_dir, 'stats_*.json')):
+            with open(f) as fh:
+                st_ = json.load(fh)
+            execs += st_['execs']
+            reached += st_['reached_reader']
+        ctx.bulk(execs, reached, 'fuzz', sample={'campaigns': len(procs), 'runs_each': runs})
+        ctx.count('fuzz/executions', execs)
+        ctx.count('fuzz/reached-message-reader', reached)
+        for f in sorted(glob.glob(os.path.join(out_dir, 'finding_*.json'))):
+            with open(f) as fh:
+                d = json.load(fh)
+            ctx.finding(d['signature'], d['detail'], {'input_hex': d['input_hex']}, 'fuzz')
+    finally:
+        shutil.rmtree(out_dir, ignore_errors=True)
+
+
 def shard(ctx, which, n):
     W.quiet_logging()
     try:
@@ -588,8 +679,10 @@ def shard(ctx, which, n):
 
 def run(ctx):
     q = ctx.tier == 'quick'
+    fuzz = start_fuzz(ctx, 800 if q else 60000, 1 if q else 6)  # runs beside the Hypothesis shards
     R.run_shards(ctx, __name__, 'shard', [('framing', 500 if q else 40000)] * 7 + [('soap', 350 if q else 15000)] * 7 + [
         ('deferred', 150 if q else 6000)] * 2)
+    collect_fuzz(ctx, fuzz)
 
 
 def replay(part, case):
@@ -600,6 +693,8 @@ def replay(part, case):
             return framing_case(ctx, case)
         if part == 'deferred':
             return deferred_case(ctx, (case[0], [list(m) for m in case[1]]))
+        if part == 'fuzz':
+            return fuzz_one(session(), bytes.fromhex(case['input_hex']))[0]
         return soap_case(ctx, (case[0], [list(m) for m in case[1]]))
     finally:
         close_session()
